@@ -22,7 +22,7 @@ func atlas(bin, dir string, args ...string) (stdout, stderr string, exit int) {
 	defer cancel()
 	cmd := exec.CommandContext(ctx, bin, args...)
 	cmd.Dir = dir
-	cmd.Env = []string{"ATLAS_NO_UPGRADE_SUGGESTIONS=1", "ATLAS_NO_UPDATE_NOTIFIER=1", "HOME=" + filepath.Join(dir, "home"), "TMPDIR=" + filepath.Join(dir, "tmp"), "PATH=/usr/bin:/bin", "NO_COLOR=1"}
+	cmd.Env = []string{"ATLAS_NO_UPGRADE_SUGGESTIONS=1", "ATLAS_NO_UPDATE_NOTIFIER=1", "HOME=" + filepath.Join(dir, "home"), "TMPDIR=" + filepath.Join(dir, "tmp"), "PATH=/usr/bin:/bin", "NO_COLOR=1", "VERIF_NOW=1704067200"}
 	var so, se bytes.Buffer
 	cmd.Stdout, cmd.Stderr = &so, &se
 	err := cmd.Run()
